@@ -180,7 +180,7 @@ fn all_templates(maxlen: usize) -> Vec<String> {
 
 const PIECES: &[&str] = &[
     "$", "\\", "{", "}", "g<", ">", "0", "1", "2", "9", "10", "11", "12", "13", "99999999999999999999", "18446744073709551616", "x", "x1", "_", "é", " ", "$$", "\\\\", "${", "\\g<", "g9", "${x}", "$x1", "\\g<x>",
-    "\\1", "$1", "a", "-", "${-1}", "\\g<-1>", "-1", "$-", "${1-}", "²", "x²", "${x²}", "$n٣", "\\g<n٣>", "٣", "9223372036854775808", "9223372036854775807", "4611686018427387904", "${9223372036854775808}",
+    "\\1", "$1", "a", "-", "${-1}", "\\g<-1>", "-1", "$-", "${1-}", "²", "x²", "${x²}", "$n٣", "\\g<n٣>", "٣", "9223372036854775808", "9223372036854775807", "4611686018427387904", "${9223372036854775808}", "😀", "x😀", "$😀", "\\😀", "${x}😀$1", "\u{10000}", "\u{800}", "\u{7ff}",
 ];
 
 fn random_template(bytes: &[u8]) -> String {
